@@ -1,5 +1,5 @@
 From Coq Require Import NArith List Bool Arith.
-From LTV.C03 Require Import ParamsGen Model Proofs ProofsA ProofsB ProofsC ProofsD ProofsE ProofsF ProofsG ProofsH.
+From LTV.C03 Require Import ParamsGen Model Proofs ProofsA ProofsB ProofsC ProofsD ProofsE ProofsF ProofsG ProofsH ProofsI.
 Import ListNotations.
 
 Theorem params_ok_now : params_ok = true.
@@ -198,3 +198,20 @@ Theorem meta_machine_segmentation_independent :
     decode HS handle rl h (pre ++ concat segs) = PRes (m_h s') (m_mode s') (m_buf s') es.
 Proof. exact ProofsH.meta_machine_segmentation_independent. Qed.
 Print Assumptions meta_machine_segmentation_independent.
+
+(* The extension "waiting for a write" pause (feedb / evb / wready / runB in Model.v; commits 6c29d69,
+   1b429d0, c72865a).  PARTIAL: proved is that the pausing decoder coincides with the proved decoder
+   whenever no completed extension message generates a reply (nothing ever waits, the pending flag is
+   untouched), so all decoder theorems transfer to it in that case.  MISSING: the refinement of runB
+   over arbitrary interleavings of segments and write-ready events ("state and effects = decode of
+   the consumed prefix, the rest unread; everything consumed after a final write-ready event"); it
+   needs the compositionality proof redone for a decoder that can stop in mode RPay KExt 0 with a
+   buffer rest.  That behaviour is tied to the code by the correspondence only (cases with xr= and
+   `w` events, plain and encrypted, every PeerConnection<> role). *)
+Theorem machine_write_events_partial :
+  forall (HS : Type) (handle : HS -> msg -> HS * verdict) (rl : role) (reply : HS -> bool),
+  (forall h, reply h = false) ->
+  forall (f : nat) (h : HS) (pend : bool) (m : rmode) (l : list N),
+  feedb HS handle rl reply f h pend m l = lift HS pend (feed HS handle rl f h m l).
+Proof. exact ProofsI.feedb_no_reply. Qed.
+Print Assumptions machine_write_events_partial.
